@@ -101,6 +101,31 @@ Fixpoint until_done (fuel : nat) (s : nstate) (final : Z -> bool) (cb : option Z
     end
   end.
 
+(* a callback that fails (with an error that is not io.EOF) at its n-th package: unless that package is the final DONE
+   the rest of the response is consumed first (NextPackageUntil with a nil callback, its result ignored), then the
+   callback's error is returned.  UCbErr: "tds: error in user-defined processing function: ..." *)
+Inductive fres := FCbErr | FEnd (u : ures).
+
+Fixpoint until_fail (fuel : nat) (s : nstate) (final : Z -> bool) (n : Z) (seen : list Z) : list Z * fres :=
+  match fuel with
+  | O => (seen, FEnd (UErr NBlock))
+  | S f =>
+    match next_package s true with
+    | [NPkg p] =>
+        let s' := after_result s (NPkg p) in
+        let seen' := seen ++ [p] in
+        if zlen seen' =? n then
+          if final p then (seen', FCbErr)
+          else match snd (until_done f s' final None [] false) with
+               | UErr NBlock => (seen', FEnd (UErr NBlock))          (* the drain blocks: so does the call *)
+               | _ => (seen', FCbErr)
+               end
+        else until_fail f s' final n seen'
+    | r :: _ => (seen, FEnd (UErr r))
+    | [] => (seen, FEnd (UErr NBlock))
+    end
+  end.
+
 (* ------------------------------------------------------------------ part 2: sending *)
 
 Inductive sres := SOk | SCtx | SClosed.
